@@ -33,6 +33,15 @@ class Base2:
 def pb(k):
     LOG.append(('eval', k))
     return Base if k % 2 else Base2
+class Meta(type):
+    def __new__(mcs, name, bases, ns, **kw): return super().__new__(mcs, name, bases, ns)
+    def __init__(cls, name, bases, ns, **kw): super().__init__(name, bases, ns)
+def pm(k):
+    LOG.append(('eval', k))
+    return Meta
+def pk(k):
+    LOG.append(('eval', k))
+    return {'kw9': k}
 SHARED = Obj(0)
 object.__setattr__(SHARED, 'a', 1)
 def po(k):
@@ -50,10 +59,19 @@ GUARDED = {   # templates inside the domain where the theorem and the property h
     "assign_starred": "a, *b = p(1)",
     "assign_nested": "(a, (b, *c)), d = [(1, [2, 3, 4]), p(1)][0:2] if p(2) else None",
     "assign_chain_pattern": "(a, b, c) = d = p(1)",
+    # nested patterns are stored depth first, left to right (the nested pattern NOT last at its level)
+    "assign_nested_targets": "(p(1).a, (p(2).b, p(3)[p(4)])), p(5).c = [[1, [2, 3]], 4]",
+    "assign_nested_starred": "(p(1).a, *p(2).b), [p(3).c, p(4).d], p(5).e = [[1, 2, 3], [4, 5], 6]",
+    "assign_nested_rebinding": "(a, b), a = (1, 2), 3\nc = d, (c, e), d = 7, (8, 9), 10\np(1)[a], p(2)[d] = b, e",
+    "for_nested_targets": "for (p(1).a, p(2).b), p(3).c in [[(1, 2), 3]]:\n    p(4)",
     "def_defaults": "def f(a=p(1), b=p(2), *, c=p(3), d=p(4)):\n    return p(5)\nf()",
     "def_decorators": "@p(1)\n@p(2)\ndef f(a=p(3)):\n    return a",
     "lambda_defaults": "f = lambda a=p(1), *, b=p(2): p(3)\nf()",
     "class_header": "class K(pb(1), pb(2), kw=p(3), kw2=p(4)):\n    x = p(5)",
+    # bases first, then the keywords in the order written - `metaclass=` among them, `**mapping` too
+    "class_header_meta": "class K(pb(1), pb(2), metaclass=pm(5)):\n    x = p(6)",
+    "class_header_meta_kw": "class K(pb(1), kw=p(2), metaclass=pm(3), kw2=p(4), **pk(5)):\n    x = p(6)",
+    "class_header_meta_only": "class K(metaclass=pm(1)):\n    x = p(2)\nclass L(K, kw=p(3)):\n    y = p(4)",
     "if_header": "if p(1):\n    p(2)\nelif p(3):\n    p(4)\nelse:\n    p(5)",
     "while_header": "n = 0\nwhile p(1) and n < 2:\n    n += 1\nelse:\n    p(2)",
     "for_header": "for x in p(1):\n    p(2)\nelse:\n    p(3)",
